@@ -36,7 +36,16 @@ def random_program(rng: random.Random, max_leaves=4, max_ops=7) -> list[dict]:
         a = rng.randint(1, n)
         if op == "lin":
             out = rng.choice([1, 1, 2, 3])
-            nd = {"op": "lin", "a": a, "mat": [[rng.randint(-2, 2) for _ in range(sizes[a - 1])] for _ in range(out)]}
+            if rng.random() < 0.3:          # selection / permutation / slice (realised by indexing, unbind, split)
+                out = rng.randint(1, sizes[a - 1])
+                start = rng.randint(0, sizes[a - 1] - out)
+                cols = list(range(start, start + out)) if rng.random() < 0.6 else rng.sample(range(sizes[a - 1]), out)
+                mat = [[1 if c == j else 0 for c in range(sizes[a - 1])] for j in cols]
+            elif rng.random() < 0.2:        # ones row (realised by sum())
+                out, mat = 1, [[1] * sizes[a - 1]]
+            else:
+                mat = [[rng.randint(-2, 2) for _ in range(sizes[a - 1])] for _ in range(out)]
+            nd = {"op": "lin", "a": a, "mat": mat}
             sz = out
         elif op == "scale":
             nd = {"op": "scale", "a": a, "c": rng.choice([-2, -1, 2, 3])}
